@@ -45,8 +45,11 @@ EXTENDS Integers, Sequences, FiniteSets
 CONSTANTS
     Defect_PruneAfterFailedIngest,     \* C04 as found: a failed ingest still reaches LogPrune with
                                        \* the args Event::new derived from the unverified header
-    Defect_PruneFlagSkipsLatestCheck   \* C05 as found: prune flag + seq > 0 => no comparison with
+    Defect_PruneFlagSkipsLatestCheck,  \* C05 as found: prune flag + seq > 0 => no comparison with
                                        \* the stored latest entry at all
+    Defect_LogIdFromTopicUnchecked     \* C04, unrepaired (known finding): the node takes the log id from
+                                       \* the topic an operation ARRIVES on (stream.rs:341) and never
+                                       \* compares it with the log id the signed header names
 
 VARIABLES
     store,      \* set of entries (rows of operations_v1)
@@ -65,14 +68,15 @@ vars == <<store, inQ, pruneQ, applied, ingested, last>>
 NoId == [a |-> "", l |-> "", seq |-> -1, v |-> ""]
 
 \* shape of an item (documentation; TLC never enumerates it):
-\*   [id, a, l, seq, prune, bl, wf]
+\*   [id, a, l, ol, seq, prune, bl, wf]
 \*   a     header.verifying_key (the CLAIMED author)
 \*   l     the log id handed to ingest / LogPrune (node: LogId::from_topic(topic))
+\*   ol    the operation's OWN log: the log id its signed header names (extensions.log_id)
 \*   seq   header.seq_num             prune  the prune flag handed to ingest / Event::new
 \*   bl    header.backlink            wf     validate_operation(operation) = Ok
 Entry(it) == it                 \* a stored row keeps exactly these fields
 
-NoEntry == [id |-> NoId, a |-> "", l |-> "", seq |-> -1, prune |-> FALSE, bl |-> NoId, wf |-> FALSE]
+NoEntry == [id |-> NoId, a |-> "", l |-> "", ol |-> "", seq |-> -1, prune |-> FALSE, bl |-> NoId, wf |-> FALSE]
 NoEvent == [item |-> NoEntry, res |-> "None", pruned |-> 0]
 
 LogOf(S, a, l) == {e \in S : e.a = a /\ e.l = l}
@@ -105,8 +109,11 @@ ValidatePrunableBacklink(past, it) ==
               \/ past.seq < it.seq                 \* repaired: the log must not have progressed
     ELSE past = NoEntry \/ ValidateBacklink(past, it)
 
+\* What validation would have to include for C04 to hold at node level; the code does not check it.
+ArrivedOnOwnLog(it) == Defect_LogIdFromTopicUnchecked \/ it.l = it.ol
+
 IngestOutcome(S, it) ==
-    IF ~it.wf THEN "Rejected"                                          \* operation.rs:36
+    IF ~it.wf \/ ~ArrivedOnOwnLog(it) THEN "Rejected"                  \* operation.rs:36
     ELSE IF \E e \in S : e.id = it.id THEN "AlreadyExists"             \* :44-56 (by hash, any log)
     ELSE IF ValidatePrunableBacklink(Latest(S, it.a, it.l), it)        \* :59-71
          THEN "Inserted" ELSE "Rejected"
@@ -210,14 +217,14 @@ A_C04_DeletesOnlyByValidPrune ==
         /\ LET ev == Head(pruneQ)
            IN /\ ev.item.wf /\ ev.item.prune /\ ev.res # "Rejected"
               /\ \A e \in store \ store' :
-                     e.a = ev.item.a /\ e.l = ev.item.l /\ e.seq < ev.item.seq
+                     e.a = ev.item.a /\ e.l = ev.item.ol /\ e.seq < ev.item.seq   \* its OWN log
 C04_DeletesOnlyByValidPrune == [][A_C04_DeletesOnlyByValidPrune]_vars
 
 A_C04_ValidPruneDeletesExactly ==
     IsPruneStep =>
         LET ev == Head(pruneQ)
         IN IF ev.item.wf /\ ev.item.prune /\ ev.res # "Rejected"
-           THEN store' = {e \in store : ~(e.a = ev.item.a /\ e.l = ev.item.l /\ e.seq < ev.item.seq)}
+           THEN store' = {e \in store : ~(e.a = ev.item.a /\ e.l = ev.item.ol /\ e.seq < ev.item.seq)}
            ELSE store' = store
 C04_ValidPruneDeletesExactly == [][A_C04_ValidPruneDeletesExactly]_vars
 
